@@ -36,8 +36,9 @@ func (ids idSet) keys() []uint16 {
 }
 
 type msgAndIdSet struct {
-	m     Message
-	idSet idSet
+	m         Message
+	idSet     idSet
+	forwarded bool
 }
 
 type Backend func(msg interface{}, from uint16)
@@ -160,9 +161,11 @@ func (r *Receiver) registerMsg(ack msgReception, from uint16, msg Message) {
 		r.reception[ack].m = msg
 	}
 
-	if len(r.reception[ack].idSet) == r.N-1 {
+	// Forward the message exactly once: as soon as enough parties vouched for it and we hold the message itself.
+	if len(r.reception[ack].idSet) >= r.N-1 && r.reception[ack].m != nil && !r.reception[ack].forwarded {
 		r.Logger.Debugf("Collected enough acknowledgements (from %v) on {sender: %d, digest: %s, round: %d}",
 			r.reception[ack].idSet, ack.sender, hex.EncodeToString([]byte(ack.digest[:8])), ack.msgRound)
+		r.reception[ack].forwarded = true
 		r.ForwardToBackend(r.reception[ack].m, ack.sender)
 	} else {
 		r.Logger.Debugf("%d more acknowledgements on  {sender: %d, digest: %s, round: %d} are expected",
